@@ -15,6 +15,10 @@ import RsomeV.Drv.DualCert
 import RsomeV.Drv.SocApprox
 import RsomeV.Drv.DroRows
 import RsomeV.Drv.RoModel
+import RsomeV.Drv.RoToRoc
+import RsomeV.Drv.ShowTable
+import RsomeV.Drv.AffExpr
+import RsomeV.Drv.DetModel
 open Lean
 namespace RsomeV.Drv
 /-- every operation of the line protocol -/
@@ -59,5 +63,9 @@ def dispatch (op : String) (j : Json) : Except String Json :=
   | "vtype_vector" => opVtypeVector j
   | "dro_to_roc" => opDroToRoc j
   | "ro_model" => opRoModel j
+  | "ro_to_roc" => opRoToRoc j
+  | "show_table" => opShowTable j
+  | "aff_expr" => opAffExpr j
+  | "det_model" => opDetModel j
   | _ => throw s!"unknown op {op}"
 end RsomeV.Drv
